@@ -275,6 +275,10 @@ int world_new_sessions(world_t *w)
     {
         suites[ns++] = TLS_AES_128_GCM_SHA256;
     }
+    if (ver_is_dtls(c->ver))
+    {
+        matrixDtlsSetPmtu(c->pmtu ? c->pmtu : -1); /* global: must be set before the sessions allocate their buffers */
+    }
     rc = matrixSslNewServerSession(&w->s[1].ssl, w->s[1].keys, c->client_auth ? cb : NULL, &so);
     if (rc < 0)
     {
@@ -284,10 +288,6 @@ int world_new_sessions(world_t *w)
     if (rc < 0)
     {
         return rc;
-    }
-    if (ver_is_dtls(c->ver) && c->pmtu)
-    {
-        matrixDtlsSetPmtu(c->pmtu);
     }
     return 0;
 }
@@ -568,7 +568,25 @@ int world_feed(world_t *w, int side, const unsigned char *p, int len)
         }
         else if (rc == MATRIXSSL_REQUEST_SEND)
         {
-            world_collect(w, side);
+            if (ver_is_dtls(w->cfg.ver) && !w->no_autocollect)
+            {
+                /* DTLS contract: REQUEST_SEND with an empty outbuf means "a duplicate flight was seen,
+                   call matrixDtlsGetOutdata to rebuild and resend ours" */
+                unsigned char *out;
+                int32 n;
+                int g2 = 0;
+                while ((n = matrixDtlsGetOutdata(s->ssl, &out)) > 0 && g2++ < 64)
+                {
+                    int rc2;
+                    world_wire_push(w, side, out, n);
+                    rc2 = matrixDtlsSentData(s->ssl, (uint32) n);
+                    note_sent_rc(w, side, rc2);
+                }
+            }
+            else
+            {
+                world_collect(w, side);
+            }
         }
         else if (rc == MATRIXSSL_REQUEST_CLOSE)
         {
